@@ -292,6 +292,10 @@ func freeLLMNRServer(c *h.Ctx, lg *evLog, clients, per int, seed int64) error {
 	}
 	srv.Conn = conn
 	srv.Address = conn.LocalAddr().(*net.UDPAddr)
+	// every other round runs the server in its (public, non-default) debug mode; in both modes the clients also send
+	// datagrams that are no queries -- too short to hold a header, responses, noise -- between their queries
+	debug := seed%2 == 0
+	srv.SetDebug(debug)
 	served := make(chan error, 1)
 	go func() { served <- srv.Serve() }()
 	var wg sync.WaitGroup
@@ -336,6 +340,20 @@ func freeLLMNRServer(c *h.Ctx, lg *evLog, clients, per int, seed int64) error {
 					c.Fail("harness", "infra", err.Error(), nil)
 					return
 				}
+				switch rng.Intn(6) {
+				case 0:
+					cn.Write([]byte{0xde, 0xad, 0xbe}[:rng.Intn(4)])
+				case 1:
+					junk := append([]byte{}, b...)
+					junk[2] |= 0x80 // the same message flagged as a response
+					cn.Write(junk)
+				case 2:
+					// a header announcing one question, followed by a label that ends before its announced 63 octets
+					junk := make([]byte, 13+rng.Intn(40))
+					rng.Read(junk)
+					copy(junk, []byte{0xFF, 0xFF, 0, 0, 0, 1, 0, 0, 0, 0, 0, 0, 63}) // an id no query of this run uses
+					cn.Write(junk)
+				}
 				lg.log(map[string]interface{}{"op": "send", "c": cl, "id": int(q.ID), "key": name})
 				cn.Write(b)
 				outstanding++
@@ -353,6 +371,34 @@ func freeLLMNRServer(c *h.Ctx, lg *evLog, clients, per int, seed int64) error {
 		}(cl)
 	}
 	wg.Wait()
+	// the server is still serving: a query sent now (three tries, in case a datagram is dropped) is answered
+	if pc, err := net.DialUDP("udp4", nil, conn.LocalAddr().(*net.UDPAddr)); err == nil {
+		q := llmnr.NewMessage()
+		q.SetQuery()
+		q.ID = 0xFFF0
+		q.AddQuestion("host7", 1, llmnr.ClassIN)
+		b, _ := q.Encode()
+		answered := false
+		buf := make([]byte, 2048)
+		for try := 0; try < 3 && !answered; try++ {
+			pc.Write(b)
+			pc.SetReadDeadline(time.Now().Add(time.Second))
+			for {
+				n, err := pc.Read(buf)
+				if err != nil {
+					break
+				}
+				if n >= 2 && binary.BigEndian.Uint16(buf[:2]) == 0xFFF0 {
+					answered = true
+					break
+				}
+			}
+		}
+		pc.Close()
+		if !answered {
+			c.Fail("llmnr.Server.Serve", "stopped-answering", fmt.Sprintf("after %d clients had sent their queries and some datagrams that are no queries, a further query was sent three times and never answered (debug mode %v)", clients, debug), nil)
+		}
+	}
 	stopPromptly(c, "llmnr.Server.Close", "network/llmnr.", func() {
 		srv.Close()
 		select {
